@@ -240,12 +240,41 @@ pub fn catch<R>(f: impl FnOnce() -> R) -> Result<R, String> {
     }
 }
 
-/// Normalise a panic message into a stable signature: `panic@file:line`
-/// with the path made relative to the repository.
+/// Normalise a panic message (`file:line: message`) into a stable signature
+/// `panic@<file>::<message>`: the path is made relative to the repository, the line
+/// number is dropped (it shifts with unrelated edits) and digits / quoted data in
+/// the message are masked.
 pub fn panic_sig(msg: &str) -> String {
-    let loc = msg.split(": ").next().unwrap_or("");
-    let loc = loc.trim_start_matches("/repo/");
-    format!("panic@{loc}")
+    let (loc, rest) = msg.split_once(": ").unwrap_or((msg, ""));
+    let file = loc.rsplit_once(':').map(|x| x.0).unwrap_or(loc);
+    let file = file.trim_start_matches("/repo/");
+    let file = if let Some(i) = file.find("/library/") { &file[i + 1..] } else { file };
+    let first = rest.lines().next().unwrap_or("");
+    let mut norm = String::new();
+    let mut in_tick = false;
+    for c in first.chars() {
+        if c == '`' {
+            in_tick = !in_tick;
+            norm.push('`');
+            continue;
+        }
+        if in_tick {
+            continue;
+        }
+        if c.is_ascii_digit() {
+            if !norm.ends_with('#') {
+                norm.push('#');
+            }
+        } else if c == ' ' {
+            norm.push('_');
+        } else {
+            norm.push(c);
+        }
+        if norm.len() > 70 {
+            break;
+        }
+    }
+    format!("panic@{file}::{norm}")
 }
 
 pub fn hash_str(s: &str) -> u64 {
